@@ -3,6 +3,18 @@
 import json, os
 HERE = os.path.dirname(os.path.abspath(__file__))
 CLAIMED = {
+ 'C01': ('other', 'Generated proof obligations: every dereference, subscript, memcpy/memset argument, shift, division and signed operation reachable from all receive/tick entry points (parseFrame over all 65 536 cells in both MTU modes, derive_session_event, ESP32 entry, switch_state_* from every state, automata_tick for every state pair with NULL-able arguments, table/band/mapping helpers, constructors) is discharged by intervals + linear entailment with inductive loop summaries, for all frame contents, MTUs, states and platform faults at once; plus the daemons\' buffer-size agreement (R01.7). Not a proof of the whole property: stack depth, port internals and unparseable daemons are out of reach, and one unbounded scan (derive_session_event) is a recorded known finding.',
+         'clang AST + layouts, lltdsa engine, port contract (MTU-sized receive buffer, well-behaved getters/allocator); KNOWN_FINDINGS lists the derive_session_event scan',
+         'abstract interpretation with generated proof obligations (interval + Fourier-Motzkin entailment), inductive loop summaries', '4 (C01)'),
+ 'C11': ('other', 'Station-list layout facts from the compiler (6-byte stride from offset 36), the scan decided by an inductive loop summary (entry k = bytes 36+6k.., any k; early exit only on a match) and the complete result table over all 256 opcodes x acking x known session x changed sequence read off the final abstract states. The bound of the scan by what the frame holds is not decided (recorded under C01).',
+         'clang AST + layouts, lltdsa engine; Documentation alphabet of session events in oracle.SESS',
+         'record-layout facts + abstract interpretation with inductive loop summary; result table vs oracle', '4 (C11)'),
+ 'C18': ('proof', 'Fault model in the port contract instead of fault enumeration: every allocation may fail on every path, every transmit may be refused, every getter and get_mtu may fail. Under it every path of every entry point discharges its safety obligations, frees its per-request buffers (typestate at exit), sizes buffers from the 1500 fallback, and the constructors return NULL / a usable object without leak. Subsumes failing the k-th allocation for every k.',
+         'clang AST, lltdsa engine, port contract; behaviour of OS glue after a constructor returned NULL is out of scope; recovery by Reset is C09',
+         'abstract interpretation under a non-deterministic fault model; heap typestate at exit', '4 (C18)'),
+ 'C19': ('proof', 'Heap typestate along every abstract path of parseFrame (all cells, both MTU modes, all fault combinations): every object allocated while handling a frame is freed or retained in the observation list / icon slot; list growth is guarded by a constant cap, the icon slot is filled only when empty; the topology Reset cell ends with only the per-interface record allocated; no double free / use after free. The numeric high-water mark is not computed.',
+         'clang AST, lltdsa engine heap model (allocation sites, summary list node), port contract',
+         'typestate analysis on the abstract heap; growth-guard rule', '4 (C19)'),
  'C07': ('other', 'Decides the inductive ingredients of C07 on the interpreted Probe/Train and Query cells: "for us" filter, de-duplication key = (Ethernet source, real source), exact field mapping frame->node->wire descriptor, QueryResp sequence number and destination rule, truncation (more bit set, unsent remainder kept, count reduced by what was reported), release after a complete report, count bookkeeping, capacity >= 300. The history-level multiset equality follows from these by induction and is not itself enumerated; the heap-shape invariant count = list length is assumed, not proved.',
          'clang AST, lltdsa engine with a summary (weak) list node; invariant count = list length assumed for the partial-release loop',
          'abstract interpretation with summary list node + inductive loop summaries; origin analysis', '4 (C07)'),
